@@ -153,7 +153,17 @@ func (p c16) Run(c *mon.Ctx, i int) {
 	if s.Win4K {
 		W = 4096
 	}
-	large := gen.Make(r, "text", 2*W+258+1).B
+	// "large": one byte past the input buffer's roll-over by default; exactly on
+	// it, one short of it, or exactly one/two 64 KiB Huffman-only blocks in a
+	// quarter of the cases (sizes and contents are parameters of the letter Wl,
+	// the enumeration of sequences is unchanged)
+	lsize := 2*W + 258 + 1
+	lfam := "text"
+	if r.Chance(1, 4) {
+		lsize = r.Pick(2*W+258, 2*W+258-1, 65536, 131072)
+		lfam = []string{"text", "alpha4", "alpha16", "geom"}[r.Intn(4)]
+	}
+	large := gen.Make(r, lfam, lsize).B
 	small := gen.Make(r, "alpha4", r.Range(1, 40)).B
 
 	fs, ss := &Sink{}, &Sink{}
@@ -170,7 +180,7 @@ func (p c16) Run(c *mon.Ctx, i int) {
 		defer g.DropGuards()
 	}
 	seqStr := fmt.Sprint(seq)
-	desc := map[string]interface{}{"setting": s.String(), "sequence": seqStr}
+	desc := map[string]interface{}{"setting": s.String(), "sequence": seqStr, "large_write": fmt.Sprintf("%s/%d", lfam, lsize)}
 	var written []byte // data accepted in the current stream before its first nil Close
 	closedAt := -1     // emitted length of fs at the first nil Close of the current stream
 	sawAfterClose, sawResetAfterData := false, false
